@@ -305,6 +305,16 @@ func genCronTick(seed int64, property string) *Plan {
 	case "C03":
 		p.Webhook = true
 		nops := 2 + r.Intn(7)
+		// one plan in four: changes arrive in bursts while time may jump inside a
+		// scheduling pass (a pass whose reference time is stale while it is still
+		// flushing change notifications)
+		burst := r.Intn(4) == 0
+		burstAt := int64(5000 + r.Intn(maxInt(1, p.DurationSec*1000/2)))
+		if burst {
+			p.Proc.ReadYield = true
+			p.Sched.StallPm = []int{30, 60, 120}[r.Intn(3)]
+			nops = 5 + r.Intn(8)
+		}
 		var existing []string
 		for k := range used {
 			existing = append(existing, k)
@@ -312,6 +322,9 @@ func genCronTick(seed int64, property string) *Plan {
 		existing = sortStrings(existing)
 		for i := 0; i < nops; i++ {
 			at := int64(1000 + r.Intn(maxInt(1, p.DurationSec*1000-2000)))
+			if burst && r.Intn(4) != 0 {
+				at = burstAt + int64(r.Intn(4000))
+			}
 			kind := []string{"createJobConfig", "updateSchedule", "updateSchedule", "setDisabled", "removeSchedule", "deleteJobConfig", "touchJobConfig", "recreate", "setConstraints"}[r.Intn(9)]
 			if len(existing) == 0 {
 				kind = "createJobConfig"
